@@ -48,7 +48,8 @@ CORRUPT_CHARS = list("*$+-,:;\t 0Aa~!{}[]\"'\\") + ["\r", "\x00", "é", "", "\u0
 def corrupt(rng, line):
     """One single-point fault on a record. Returns (kind, new_text)."""
     kind = rng.choice(["replace", "insert", "delete", "dropfield", "dupfield", "tagtype",
-                       "truncate", "blank", "empty", "swapfields", "emptyfield", "digits", "digits"])
+                       "truncate", "blank", "empty", "swapfields", "emptyfield", "digits", "digits", "tagname",
+                       "tagvalue", "newline"])
     f = line.split("\t")
     if kind == "digits":
         # one run of digits replaced by non-ASCII digits or by more digits than int() converts
@@ -84,6 +85,29 @@ def corrupt(rng, line):
             n, t, v = f[i].split(":", 2)
             f[i] = "%s:%s:%s" % (n, rng.choice("AifZJHBx"), v)
             return kind, "\t".join(f)
+    if kind in ("tagname", "tagvalue"):
+        idx = [i for i, x in enumerate(f) if gtext.TAG_RE.match(x)]
+        if idx:
+            i = rng.choice(idx)
+            n, t, v = f[i].split(":", 2)
+            if kind == "tagname":
+                # a custom tag takes the name of a tag predefined for some record type
+                f[i] = "%s:%s:%s" % (rng.choice(["VN", "TS", "LN", "RC", "FC", "KC", "SH", "UR", "MQ", "NM", "ID",
+                                                "SN", "SO", "SR"]), t, v)
+            else:
+                pool = {"f": ["1e999", "-1e999", "9" * 400, "nan", "inf"], "J": ["1", "null", "true", '"a"', "[NaN]",
+                                                                                "[Infinity]", "1.5"],
+                        "B": ["f,1e999", "f,nan", "c,", "C,256", "i,1,", "f"], "i": ["1e3", "0x10", "1_0"],
+                        "H": ["1a", "A"], "A": ["ab", ""], "Z": ["a\tb"]}.get(t, ["*"])
+                f[i] = "%s:%s:%s" % (n, t, rng.choice(pool))
+            return kind, "\t".join(f)
+        elif line and not line.startswith("#"):
+            return kind, line + "\t" + rng.choice(["VN:Z:x", "TS:Z:1", "LN:Z:a", "xx:J:1", "xx:f:1e999", "ID:i:1"])
+    if kind == "newline" and len(f) > 1:
+        # a line break inside a record offered as one line
+        i = rng.randrange(len(f))
+        f[i] = f[i] + "\n"
+        return kind, "\t".join(f)
     if kind == "truncate" and line:
         return kind, line[:rng.randrange(len(line))]
     if kind == "blank":
@@ -112,6 +136,17 @@ SPECIAL_DOCS = [
     ["E\te\ta+\tb-\t0\t1\t0\t1\t1,2,x"],
     ["G\tg\ta+\tb-\t10\t*"],
     ["F\ta\tr+\t0\t1\t0\t1\t*"],
+    ["#"], ["#", "# "], ["#\tx"],
+    # adversarial for backtracking validators: a long list with one malformed element at the end
+    ["S\ta\t*", "P\tp\t" + ",".join(["a+"] * 24) + ",a\t*"],
+    ["S\ta\t4\t*", "O\tp\t" + " ".join(["a+"] * 24) + " a"],
+    ["S\ta\t*\txx:f:" + "1" * 3000 + "x", "S\tb\t*\txx:B:f," + "1" * 3000 + "x"],
+    # JSON nested close to the interpreter's recursion limit (parses, then has to be written)
+    ["H\txx:J:" + "[" * 1300 + "]" * 1300, "S\ta\t*"],
+    ["H\txx:J:" + "[" * 1400 + "]" * 1400, "S\ta\t*"],
+    ["H\txx:J:" + "[" * 1450 + "]" * 1450, "S\ta\t*"],
+    ["S\ta\t*\txx:J:" + "[" * 1480 + "]" * 1480],
+    ["S\ta\t*\txx:J:" + "[" * 1492 + "]" * 1492],
     ["S\ta\t*", "C\ta\t+\ta\t+\t0\t*"],
     ["#"], ["# "], ["#\t"], ["H"], ["S"], ["L"], ["\t"], ["X"], ["S\t"], ["H\t"],
     # an identifier first used as a reference to an undefined segment, then defined as another record type
@@ -173,7 +208,7 @@ def gen(streams, tier, i):
         faults.append(kind)
     dialect = cfg.choice(["standard"] * 5 + ["rgfa"])
     entry = cfg.choice(["str", "str_nl", "list", "file_lf", "file_crlf", "file_nonl", "file_torn",
-                        "incremental", "file_progress", "lines", "script"])
+                        "incremental", "file_progress", "lines", "script", "file_bytes", "line_lists"])
     ops.append({"op": "build", "entry": entry, "lines": lines, "vlevel": vlevel, "version": version,
                 "dialect": dialect, "torn": fr.randint(1, 12)})
     hr = streams.get("history")
@@ -185,7 +220,7 @@ def gen(streams, tier, i):
                           "add", "names", "l.str", "l.clone", "l.rename", "select", "to_other",
                           "components", "linear_paths", "multiply",
                           "seg_component", "cut", "to_obj", "l.to_other", "l.diff", "l.refs", "each.to_other",
-                          "l.edit_rm", "l.edit_rm"])
+                          "l.edit_rm", "l.edit_rm", "select_rt", "l.retype", "l.retype", "l.edge_setter"])
         # graph rewrites on arbitrary (possibly corrupted) graphs -- merge_linear_paths, remove_dead_ends,
         # remove_small_components, group resolution -- take no string argument and are outside C07's
         # quantifier (texts and strings passed to the API); C14/C16/C17 cover them on their own domains
@@ -279,6 +314,30 @@ def build(w, cx, op, st):
                 cx.call("line.to_gfa1_s %r" % ln, lambda: l.to_gfa1_s())
                 cx.call("line.to_gfa2_s %r" % ln, lambda: l.to_gfa2_s())
         return None
+    if entry == "line_lists":
+        # every record as a stand-alone Line built from its tab-split list
+        for ln in lines:
+            o = cx.call("gfapy.Line(%r)" % ln.split("\t"), gfapy.Line, ln.split("\t"), vlevel=op["vlevel"],
+                        version=op["version"])
+            if o.ok:
+                l = o.value
+                cx.call("str(line) %r" % ln, str, l)
+                cx.call("line.validate() %r" % ln, l.validate)
+        return None
+    if entry == "file_bytes":
+        # a stored byte flipped: the file is no longer valid UTF-8 text
+        raw = bytearray(("\n".join(lines) + "\n").encode("utf-8"))
+        pos = op.get("torn", 1) * 7 % max(1, len(raw))
+        raw[pos] = (0xE9, 0xFF, 0xC3, 0x80)[op.get("torn", 1) % 4]
+        st.count("fault.flipped_byte")
+        w.disk.write_raw("/sim/t.gfa", bytes(raw))
+        w.disk.sync()
+        install_seams(w.disk, w.clock)
+        try:
+            o = cx.call("Gfa.from_file(<flipped byte at %d>)" % pos, gfapy.Gfa.from_file, "/sim/t.gfa", **kw)
+        finally:
+            remove_seams()
+        return o.value if o.ok else None
     if entry in ("file_torn", "script"):
         text = "\n".join(lines) + "\n"
         if entry == "file_torn" and len(text) > 2:
@@ -342,6 +401,11 @@ def api(g, cx, op, st):
         o = cx.call("gfa.names", lambda: (g.names, g.segment_names, g.edge_names, g.path_names))
     elif c == "select":
         o = cx.call("gfa.select", g.select, {"name": a})
+    elif c == "select_rt":
+        rt = "HSLCPEGFOU#X"[op["li"] % 12]
+        o = cx.call("gfa.select({'record_type': %r})" % rt, g.select, {"record_type": rt})
+        for x in list(g.lines)[:3]:
+            o = cx.call("gfa.select(line)", g.select, x)
     elif c == "to_other":
         o = cx.call("gfa.to_gfa1_s/to_gfa2_s", lambda: (g.to_gfa1_s(), g.to_gfa2_s()))
     elif c == "components":
@@ -425,6 +489,27 @@ def api(g, cx, op, st):
             o = cx.call("gfa.rm(segment) after edit", g.rm, segn[op["li"] % len(segn)])
         else:
             o = cx.call("gfa.rm(line) after edit", g.rm, l)
+    elif c == "l.retype":
+        # the datatype of a field or tag is changed (documented: the content may become invalid), then the line
+        # is read, validated, written, cloned and converted
+        names = list(l.positional_fieldnames) + list(l.tagnames) + [a]
+        fn = names[op["li"] % len(names)]
+        cx.call("line.get(%r)" % fn, l.get, fn)
+        cx.call("line.set_datatype(%r,...)" % fn, l.set_datatype, fn, "AifZJHB"[op["li"] % 7])
+        cx.call("line.validate() after set_datatype", l.validate)
+        cx.call("str(line) after set_datatype", str, l)
+        cx.call("line.clone() after set_datatype", l.clone)
+        o = cx.call("gfa.validate() after set_datatype", g.validate)
+    elif c == "l.edge_setter":
+        es = [x for x in g.lines if x.record_type in ("E", "L", "C")]
+        if not es:
+            return
+        e = es[op["li"] % len(es)]
+        # (attributes that have a setter; assigning to a read-only property is Python's AttributeError by design)
+        attr = ("from_segment", "to_segment", "from_orient", "to_orient")[op["li"] % 4]
+        cx.call("edge.%s = %r" % (attr, a), setattr, e, attr, a)
+        cx.call("str(edge) after setter", str, e)
+        o = cx.call("gfa.validate() after edge setter", g.validate)
     elif c == "l.diff":
         o = cx.call("line.diff/==", lambda: (l == lines[0], l.diff(lines[0]) if lines[0].record_type == l.record_type else None))
     elif c == "l.refs":
@@ -469,7 +554,7 @@ def simplify(scn):
         c = dict(scn)
         c["ops"] = [dict(ops[0], lines=lines[:i] + lines[i + 1:])] + ops[1:]
         yield c
-    if ops[0]["entry"] not in ("str", "lines", "script", "file_torn"):
+    if ops[0]["entry"] not in ("str", "lines", "script", "file_torn", "file_bytes", "line_lists"):
         c = dict(scn)
         c["ops"] = [dict(ops[0], entry="str")] + ops[1:]
         yield c
